@@ -1,5 +1,5 @@
 (** C14: case type and per-case checker evaluated on what the implementation returned. *)
-From GV Require Export Pem.
+From GV Require Export Pem Verdict.
 
 Definition entry_eqb (a b : entry) : bool :=
   match a, b with
@@ -88,10 +88,6 @@ Inductive c14case :=
 | CRound (from_parse : bool) (e : entry) (text : bytes) (pd : option bytes) (r2 : gores)
 | CParse (text : bytes) (pd : option bytes) (r : gores).
 
-(** VMismatch: model and implementation disagree (1 = serialisation, 2 = parse, 9 = unclassified
-    Go error).  VSpec: the property is false on what the implementation returned
-    (1 = round trip, 2 = idempotence, 3 = unambiguity, 4 = panic). *)
-Inductive verdict := VOk | VMismatch (what : nat) | VSpec (clause : nat).
 
 Definition c14_check (c : c14case) : verdict :=
   match c with
